@@ -297,6 +297,24 @@ pub mod trace {
         (r, ev)
     }
 
+    /// RAII form of `capture` for runs that only want the events to be *formatted* (what they say is
+    /// dropped): the subscriber is installed and enabled on this thread until the guard goes.
+    pub struct Enabled(bool);
+    impl Enabled {
+        #[allow(clippy::new_without_default)]
+        pub fn new() -> Self {
+            install();
+            EVENTS.with(|e| e.borrow_mut().clear());
+            Enabled(CAPTURING.with(|c| c.replace(true)))
+        }
+    }
+    impl Drop for Enabled {
+        fn drop(&mut self) {
+            CAPTURING.with(|c| c.set(self.0));
+            EVENTS.with(|e| e.borrow_mut().clear());
+        }
+    }
+
     /// Drain what has been captured so far (inside `capture`).
     pub fn drain() -> Vec<String> {
         EVENTS.with(|e| std::mem::take(&mut *e.borrow_mut()))
